@@ -308,6 +308,53 @@ func init() {
 			return fmt.Sprintf("k=%d;w=%s;lsb=%s", int(hhea[34])<<8|int(hhea[35]), mDigest(out.Widths), mDigest(out.LSB))
 		}))
 	}
+	// D: truncated / odd hmtx bodies are refused, accepted ones give two vectors of full length
+	ops["metrics.hmtxtrunc"] = func(f Fields) string {
+		return canonPanic(guard(func() string {
+			hhea, hm := f.Hex("hhea"), f.Hex("hmtx")
+			if hm == nil {
+				hm = []byte{}
+			}
+			info, err := hmtx.Decode(hhea, hm)
+			if err != nil {
+				return "refused"
+			}
+			k := int(hhea[34])<<8 | int(hhea[35])
+			if len(info.Widths) != len(info.LSB) || len(info.Widths) < k {
+				return fmt.Sprintf("short:widths=%d,lsb=%d,numberOfHMetrics=%d", len(info.Widths), len(info.LSB), k)
+			}
+			return fmt.Sprintf("full:%d", len(info.Widths))
+		}))
+	}
+	ops["metrics.maxprt"] = func(f Fields) string {
+		return canonPanic(guard(func() string {
+			m, err := maxp.Read(bytes.NewReader(mMaxp(f).Encode()))
+			if err != nil {
+				return mErrClass(err)
+			}
+			s := "-"
+			if t := m.TTF; t != nil {
+				s = ints([]int{int(t.MaxPoints), int(t.MaxContours), int(t.MaxCompositePoints), int(t.MaxCompositeContours),
+					int(t.MaxZones), int(t.MaxTwilightPoints), int(t.MaxStorage), int(t.MaxFunctionDefs),
+					int(t.MaxInstructionDefs), int(t.MaxStackElements), int(t.MaxSizeOfInstructions),
+					int(t.MaxComponentElements), int(t.MaxComponentDepth)})
+			}
+			return fmt.Sprintf("ok:%d;%s", m.NumGlyphs, s)
+		}))
+	}
+	ops["metrics.postrt"] = func(f Fields) string {
+		return canonPanic(guard(func() string {
+			p := &post.Info{ItalicAngle: float64(f.Int("angle")) / 65536, UnderlinePosition: funit.Int16(f.Int("upos")),
+				UnderlineThickness: funit.Int16(f.Int("uthick")), IsFixedPitch: mBool(f, "fixed")}
+			b := p.Encode()
+			q, err := post.Read(bytes.NewReader(b))
+			if err != nil {
+				return mErrClass(err)
+			}
+			ver := uint32(b[0])<<24 | uint32(b[1])<<16 | uint32(b[2])<<8 | uint32(b[3])
+			return fmt.Sprintf("ok:%d;%d,%d,%d,%s", ver, int64(math.Round(q.ItalicAngle*65536)), q.UnderlinePosition, q.UnderlineThickness, b01(q.IsFixedPitch))
+		}))
+	}
 	ops["metrics.hmtxdec"] = func(f Fields) string {
 		return canonPanic(guard(func() string {
 			hhea := f.Hex("hhea")
@@ -790,6 +837,33 @@ func areaMetrics(c *Ctx) {
 			}
 		}
 	}
+	// truncated hmtx bodies: numberOfHMetrics = k, body of every even length from 0 to 4k+6 (and a few
+	// odd ones): refused unless k whole long records and whole bearings are present
+	for _, k := range []int{1, 2, 3, 6, Pick(r, []int{4, 5, 7, 9})} {
+		hh := hheaStub(1, 0)
+		hh[34], hh[35] = byte(k>>8), byte(k)
+		body := r.Bytes(4*k + 8)
+		for l := 0; l <= 4*k+6; l += 2 {
+			c.Case(Direct, "metrics.hmtxtrunc", "hhea="+hx(hh)+" hmtx="+hx(body[:l]), true)
+			c.Case(Verdict, "metrics.hmtxdec", "hhea="+hx(hh)+" hmtx="+hx(body[:l]), true)
+			switch {
+			case l < 2*k:
+				c.Stat("hmtx_truncated", "below 2k bytes")
+			case l < 4*k:
+				c.Stat("hmtx_truncated", "between 2k and 4k bytes")
+			default:
+				c.Stat("hmtx_truncated", "complete")
+			}
+		}
+		c.Case(Direct, "metrics.hmtxtrunc", "hhea="+hx(hh)+" hmtx="+hx(body[:4*k+1]), true)
+		c.Case(Direct, "metrics.hmtxtrunc", "hhea="+hx(hh)+" hmtx="+hx(body[:2*k+1]), true)
+	}
+	// zero versus absent: all-zero widths / bearings / boxes are data, not "no data"
+	for _, g := range []int{1, 2, 5} {
+		zs := make([]funit.Int16, g)
+		hmtxCase(c, zs, make([]funit.Rect16, g), nil, "all-zero")
+		hmtxCase(c, zs, nil, make([]funit.Int16, g), "all-zero")
+	}
 	// nil / empty / mismatching slices (outside the stated domain: verdict only)
 	for i := 0; i < n/25+6; i++ {
 		g := r.Range(0, 5)
@@ -994,6 +1068,25 @@ func areaMetrics(c *Ctx) {
 			}
 			ttf = ints(v)
 		}
+		switch i % 8 {
+		case 1: // present but all zero: must stay present (version 1.0), not collapse to "absent"
+			ttf = ints(make([]int, 13))
+			c.Stat("maxp_ttf", "all-zero")
+		case 2, 3: // a single non-zero maximum
+			v := make([]int, 13)
+			v[r.Intn(13)] = Pick(r, []int{1, 65535, r.Range(1, 65535)})
+			ttf = ints(v)
+			c.Stat("maxp_ttf", "single non-zero")
+		default:
+			if ttf == "-" {
+				c.Stat("maxp_ttf", "absent")
+			} else {
+				c.Stat("maxp_ttf", "random")
+			}
+		}
+		if ng >= 1 && ng < 65536 {
+			c.Case(Direct, "metrics.maxprt", fmt.Sprintf("n=%d ttf=%s", ng, ttf), true)
+		}
 		out := c.Case(Verdict, "metrics.maxpenc", fmt.Sprintf("n=%d ttf=%s", ng, ttf), true)
 		c.Stat("maxp_outcome", strings.SplitN(out, ":", 2)[0])
 		if !strings.HasPrefix(out, "ok:") {
@@ -1022,6 +1115,10 @@ func areaMetrics(c *Ctx) {
 	for i := 0; i < n/10+8; i++ {
 		angle := Pick(r, []int{0, -12 * 65536, -786432 + 1, 65536, -2147483648, 2147483647, r.Range(-30*65536, 30*65536), int(int32(uint32(r.U64())))})
 		args := fmt.Sprintf("angle=%d upos=%d uthick=%d fixed=%d", angle, mI16(r), mI16(r), r.Intn(2))
+		if i == 0 {
+			args = "angle=0 upos=0 uthick=0 fixed=0" // the all-zero header
+		}
+		c.Case(Direct, "metrics.postrt", args, true)
 		out := c.Case(Verdict, "metrics.postenc", args, true)
 		if !strings.HasPrefix(out, "ok:") {
 			continue
